@@ -304,7 +304,10 @@ def observe(cfg):
         pr["nest_raised"] = type(ex).__name__
     obs["primal"] = pr
     if cfg.get("second") and not kink and cfg["kind"] == "rr":
-        obs["second"] = second_order(f, xin, y0)
+        try:
+            obs["second"] = second_order(f, xin, y0)
+        except Exception as ex:     # noqa  a problem of the comparison code itself: not evaluated, counted
+            obs["second"] = {"checked": False, "modes": {}, "nbad": 0, "sym_bad": 0, "num_bad": 0, "harness": type(ex).__name__ + ": " + str(ex)[:120]}
     return obs
 
 
